@@ -25,7 +25,7 @@ EXPLANATION = (
     "endpoint=False).  R4 cutoff flows only into a label slice .loc[cutoff:] of the frame indexed by the time vector.  R5 the history "
     "of a delayed model is fed with the step's result; R6 its lookup (DDEHistory.__call__) clamps and interpolates between the records "
     "around the query for any order of reads (the C19-R5 analysis, reused).  R7 run() never reads the end-state record of the previous "
-    "simulation on its way to the solver (row 0 is the declared initial state).  NOT decided: "
+    "simulation on its way to the solver (row 0 is the declared initial state).  R8 (= C08-R3) an extrinsic input array reaches create_input_node with every sample at the time it was given for, under the fixed-step and the adaptive reading alike.  NOT decided: "
     "accuracy of adaptive solvers, correctness of the vector field itself (C01), pandas/numpy semantics."
 )
 RULE_TEXT = ("instances = solver overrides resolved through the MRO; each is summarised by symbolic execution of one step; "
@@ -340,6 +340,15 @@ def r6_history_lookup(ctx, rid):
     r4_growth_keeps_records(ctx, rid)
 
 
+def r8_input_samples_keep_their_time(ctx, rid):
+    """"Time-dependent terms included": all solvers converge to one trajectory only if sample k of an extrinsic input array stands for
+    the same time under every solver.  The fixed-step solvers index the array by step number, the adaptive ones interpolate it over
+    [0, T] by its LENGTH - so between run(inputs=...) and create_input_node the array may change its number of samples only where the
+    step-indexed reading applies.  The decision is C08-R3's (time grid and forwarding of the array), reused here."""
+    from .c08 import r3_time_grid
+    r3_time_grid(ctx, rid)
+
+
 RULES = [
     ("C03-R0", r0_step_formula, 5),
     ("C03-R1", r1_borrowed_buffer, 5),
@@ -349,4 +358,5 @@ RULES = [
     ("C03-R5", r5_history_fed_with_step_result, 6),
     ("C03-R6", r6_history_lookup, 3),
     ("C03-R7", r7_run_starts_from_the_declared_state, 1),
+    ("C03-R8", r8_input_samples_keep_their_time, 13),
 ]
